@@ -20,6 +20,9 @@ func init() {
 			{"ACP-PLUMB", ruleACPPlumb},
 			{"LWW-TABLE", ruleLWWTable},
 			{"COUNTER-MERGE", ruleCounterMerge},
+			{"ITER-NO-WRITE", func(c *eng.Ctx) {
+				ruleIterNoWrite(c, "ITER-NO-WRITE", []string{"internal/core/...", "internal/db/fetcher"})
+			}},
 		},
 		Meta: eng.PropMeta{
 			Explanation: "The versioned (time-travel) read path replays history with its own traversal; it must agree with the merge path's traversal (sibling implementations). Decided: (WALK-PARTITION) VersionedFetcher.seekNext ranges over every parent (Heads) with the queueing flag set and over the field links with the flag clear; VersionedFetcher.merge recurses into field links only (parents come from the queue exactly once) — the same partition as merge.go; (VF-ISOLATED) the replay writes only into the fetcher's private transient store: ProcessBlock runs with a context whose transaction is that store, every CRDT is constructed on it, block copies go to it, and the request's own transaction is only read; (VF-SAME-MERGE) the replay applies blocks through the same coreblock.ProcessBlock / CRDT constructors as the live merge path; (SUB-CID) subscriptions evaluate at the cid and docID of the received event; (ACP-PLUMB) the ACP handle and identity reach the inner fetcher unchanged.",
